@@ -26,6 +26,34 @@ CLAIMED = {
              "inputs; model tied to /repo by the hist-engine correspondence and judged on the implementation's own output.",
         note="Trusted: Lean kernel and the three standard axioms; correspondence check; badger Update atomicity.",
         ref="DESIGN.md §6 C02"),
+    "C05": dict(
+        technique="Lean 4 theorems (decision logic of the three rule functions lifted to signer operations and to all reachable logs) + differential correspondence + Lean-predicate judge",
+        text="Theorems C05_generic_single/_multi (no generic signature under attester/proposer domain types; exit type only for a "
+             "listed non-empty source), C05_attest_only_attester / C05_propose_only_proposer (other domain types refused, store "
+             "untouched) and C05_logs (in every reachable state every released attestation/proposal signature carries its own "
+             "domain type), for all domains, data, admin lists and sources. Tied to /repo by domain-focused histories through the "
+             "real signer; every released signature is judged by the Lean predicate.",
+        note="Trusted: Lean kernel + 3 standard axioms; correspondence check; domain-type constants come from go-eth2-types and are validated by the engine, not regenerated.",
+        ref="DESIGN.md §6 C05"),
+    "C06": dict(
+        technique="Lean 4 theorems (case analysis over result enums, induction over batch positions, arbitrary fault plans) + enumerated single-fault injection through verif hooks + differential correspondence",
+        text="Theorems C06_att/_prop/_sign/_atts/_msign: for every fault plan, request and configuration a response position has a "
+             "signature iff its state is SUCCEEDED; C06_*_fault: a failing read/write (landed or not)/signing call leaves no "
+             "signature; C06_batch_*: a failing read or write anywhere fails the whole batch; C06_shape_*: one position per request. "
+             "Tied to /repo by enumerating every single fault at every hook site for every request kind and batch position, "
+             "undecodable records on disk, and seeded multi-fault histories; positions judged by the Lean biconditional.",
+        note="Trusted: Lean kernel + 3 axioms; fault injection points are the verif hooks (Store.Fetch/Store/BatchStore entry, after-store, signRoot); handler-level mapping is covered by C20's wire engine.",
+        ref="DESIGN.md §6 C06"),
+    "C07": dict(
+        technique="Lean 4 theorems (nested-loop Check == first-bearing-item specification; refused requests are no-ops) + differential correspondence against checker/static with a regex model + Lean-spec judge",
+        text="Theorem C07_scan_eq_spec: Check's loops with early return equal 'first bearing item of the flattened operation lists of "
+             "matching entries, default deny' for all compiled configurations; C07_unknown_client/_no_identity/_default_deny; "
+             "C07_refused_no_effect_*: a refused signing request returns no signature and leaves store and logs untouched; "
+             "C07_resolved_account: the decision is taken on the canonical name of the resolved account. The whole-name, "
+             "case-insensitive matching of patterns (regexify + Go regexp) is modelled (RE2 fragment, derivative matcher) and tied "
+             "by ~15k generated (configuration, probe) decisions per quick run, each judged by the Lean specification firstBearing.",
+        note="Partial for one link: 'anchored search == whole-name match' is carried by the correspondence and judge, not by a theorem. Go regexp outside the modelled fragment and Unicode folding are not covered. main.go's map-ordered entry list is out of scope (the ordered list given to the checker is what is modelled).",
+        ref="DESIGN.md §6 C07"),
 }
 
 
